@@ -30,7 +30,7 @@ trusted = ["hand-written model MptModel/Impl/Ident.lean tied to mptcore/misc/ide
 
 
 def corpus(chk):
-    return gen.corpus(id)
+    return [(n, s) for n, s in gen.corpus(id) if s and s[0].startswith("i ")]
 
 
 def _data(n, base=0x61):
